@@ -84,6 +84,8 @@ func runC18(c *Ctx) {
 		var imp string
 		if i < len(shapes) {
 			imp = shapes[i]
+		} else if i%29 == 7 {
+			imp = "" // an activation without a granted subject: no identity, in either library, before or after migration
 		} else {
 			imp = genSubj()
 		}
@@ -135,7 +137,12 @@ func runC18(c *Ctx) {
 			h3, e3 := d3.HashID()
 			emit(d3.Issuer, d3.Subject, string(d3.ImportSubject), h3, e3 != nil, map[string]interface{}{"stage": "v2 re-encode -> v2 decode -> v2 HashID"})
 			c.sum.ImplChecks++
-			if h1 != h2 || h2 != h3 || e1 != nil || e2 != nil || e3 != nil {
+			if imp == "" {
+				// nothing granted: every stage refuses
+				if e1 == nil || e2 == nil || e3 == nil {
+					c.violation("an activation without a granted subject gets a hash identity at some stage", map[string]interface{}{"v1_refused": e1 != nil, "v2_migrated_refused": e2 != nil, "v2_reencoded_refused": e3 != nil})
+				}
+			} else if h1 != h2 || h2 != h3 || e1 != nil || e2 != nil || e3 != nil {
 				c.violation("hash identity changes across v1 / migration / re-encoding", map[string]interface{}{"import_subject": imp, "v1": h1, "v2_migrated": h2, "v2_reencoded": h3})
 			}
 			hashes = append(hashes, h1)
